@@ -6,7 +6,7 @@ import itertools
 
 from ..gen import text_classes, is_trivial_text
 from ..obs import guarded, is_exc
-from ..ops import OpGen, apply, op_name, walk_texts
+from ..ops import OpGen, apply, op_name, walk_texts, touch_all
 
 LEVEL = "exploration"
 RULE = (
@@ -113,7 +113,7 @@ def run(ctx):
     og = OpGen(ctx.rng, surrogates=True, valid_only=True)
     for k in range(ctx.params["n"]):
         op = og.any(4)
-        u = guarded(apply, op)
+        u = guarded(apply, op, touch_all if k % 2 else None)
         if is_exc(u):
             if u.type in ("ValueError", "TypeError") or u.type.startswith("Unicode") or u.type in ("IDNAError", "InvalidCodepoint", "InvalidCodepointContext", "IDNABidiError"):
                 ctx.count("rejected")
